@@ -65,6 +65,18 @@ Definition g_kx_ecdhe : N := 4.
 Definition g_fragment_buffer_max_size : N := 2000000.
 Definition g_fragment_buffer_max_count : N := 1000.
 (* ---- from package ./pkg/protocol/handshake ---- *)
+(* extensionRegistry: (extension type, (handshake context, payload kind)) *)
+Definition g_c18_ext_registry : list (N * (N * N)) :=
+  [(0, (0, 121)); (0, (1, 122)); (0, (4, 122)); (10, (0, 127)); (10, (4, 127)); (11, (0, 134)); (11, (1, 134)); (13, (0, 128)); (13, (5, 128)); (14, (0, 125)); (14, (1, 126)); (14, (4, 126)); (16, (0, 123)); (16, (1, 124)); (16, (4, 124)); (23, (0, 132)); (23, (1, 132)); (41, (0, 144)); (41, (2, 145)); (42, (0, 137)); (42, (4, 137)); (42, (7, 138)); (43, (0, 147)); (43, (2, 148)); (43, (3, 148)); (44, (0, 136)); (44, (3, 136)); (45, (0, 146)); (47, (0, 135)); (47, (5, 135)); (48, (5, 142)); (49, (0, 143)); (50, (0, 129)); (50, (5, 129)); (51, (0, 139)); (51, (2, 140)); (51, (3, 141)); (54, (0, 120)); (54, (1, 120)); (54, (2, 120)); (61, (0, 131)); (61, (1, 131)); (61, (2, 131)); (65281, (0, 133)); (65281, (1, 133))].
+Definition g_c18_ctx_client_hello : N := 0.
+Definition g_c18_ctx_server_hello12 : N := 1.
+Definition g_c18_ctx_server_hello13 : N := 2.
+Definition g_c18_ctx_hello_retry_request : N := 3.
+Definition g_c18_ctx_encrypted_extensions : N := 4.
+Definition g_c18_ctx_certificate_request : N := 5.
+Definition g_c18_ctx_certificate_entry : N := 6.
+Definition g_c18_ctx_new_session_ticket : N := 7.
+Definition g_c18_hrr_random : list N := [207; 33; 173; 116; 229; 154; 97; 17; 190; 29; 140; 2; 30; 101; 184; 145; 194; 162; 17; 22; 122; 187; 140; 94; 7; 158; 9; 226; 200; 168; 51; 156].
 Definition g_c18_sigschemes : list (N * (N * N)) :=
   [(256, (1, 0)); (257, (1, 1)); (259, (1, 3)); (263, (1, 7)); (512, (2, 0)); (513, (2, 1)); (515, (2, 3)); (519, (2, 7)); (768, (3, 0)); (769, (3, 1)); (771, (3, 3)); (775, (3, 7)); (1024, (4, 0)); (1025, (4, 1)); (1027, (4, 3)); (1031, (4, 7)); (1280, (5, 0)); (1281, (5, 1)); (1283, (5, 3)); (1287, (5, 7)); (1536, (6, 0)); (1537, (6, 1)); (1539, (6, 3)); (1543, (6, 7)); (2048, (8, 0)); (2049, (8, 1)); (2051, (8, 3)); (2052, (4, 2052)); (2053, (5, 2053)); (2054, (6, 2054)); (2055, (8, 7)); (2057, (4, 2057)); (2058, (5, 2058)); (2059, (6, 2059))].
 Definition g_c18_curve_types : list N := [3].
